@@ -347,4 +347,17 @@ BENIGN += [
             "        self.scopes.iter().rev().any(|scope| self.locals.contains_key(&(*scope, id.to_string())))")]),
     dict(id="B22", props=["C10", "C16", "C14", "C05"], what="eval_array builds the vector with vec![..; n]", edits=[
         (I, "    let elements = repeat(initializer).take(n as usize).collect();", "    let elements = vec![initializer; n as usize];")]),
+    dict(id="B23", props=["C02", "C13", "C01", "C05"], what="label names use another separator", edits=[
+        (C, '        let name = format!("{}:{}", prefix.into(), group);', '        let name = format!("{}_{}_L", prefix.into(), group);')]),
+    dict(id="B24", props=["C06", "C01", "C10"], what="into_string reads all bytes, then decodes strictly", edits=[
+        (M, "        let mut string = String::new();\n        self.source.read_to_string(&mut string)?;\n        Ok(string)",
+            "        let mut bytes = Vec::new();\n        self.source.read_to_end(&mut bytes)?;\n        Ok(String::from_utf8(bytes)?)")]),
+    dict(id="B25", props=["C08", "C03", "C04"], what="write_utf8 with std's resume loop instead of write_all", edits=[
+        (S, "    writer.write_all(bytes)?;\n    Ok(())\n        //.expect(&format!(\"Problem writing UTF-8",
+            "    let mut rest = bytes;\n    while !rest.is_empty() {\n        let n = writer.write(rest)?;\n        if n == 0 { anyhow::bail!(\"sink is full\"); }\n        rest = &rest[n..];\n    }\n    Ok(())\n        //.expect(&format!(\"Problem writing UTF-8")]),
+    dict(id="B26", props=["C08", "C03", "C04"], what="write_utf8: one write, then write_all of the rest", edits=[
+        (S, "    writer.write_all(bytes)?;\n    Ok(())\n        //.expect(&format!(\"Problem writing UTF-8",
+            "    let n = writer.write(bytes)?;\n    writer.write_all(&bytes[n..])?;\n    Ok(())\n        //.expect(&format!(\"Problem writing UTF-8")]),
+    dict(id="B27", props=["C03", "C04"], what="read_cpi_vector with an explicit Vec turbofish", edits=[
+        (P, "            .map(ConstantPoolIndex::new)\n            .collect()", "            .map(ConstantPoolIndex::new)\n            .collect::<Vec<ConstantPoolIndex>>()")]),
 ]
